@@ -21,6 +21,13 @@ Lemma skeleton :
   = (true, true, true, false, true, false, 1, 7, 0).
 Proof. reflexivity. Qed.
 
+(* every slice expression is a two-index one (no capacity limit s[lo:hi:max]) *)
+Lemma skeleton_slices : forall z,
+  (es_fuse_x_max z, es_fuse_y_max z, es_drop_x_max z, es_copy_y_max z, es_emit_x_max z,
+   es_tail_fuse_x_max z, es_tail_fuse_y_max z, es_tail_drop_x_max z, es_tail_copy_y_max z)
+  = (z, z, z, z, z, z, z, z, z).
+Proof. reflexivity. Qed.
+
 (* ---- indices and slices on lists split at the position ------------------------------- *)
 
 Lemma zlen_app : forall {A} (p s : list A), zlen (p ++ s) = zlen p + zlen s.
